@@ -65,13 +65,15 @@ func caseGen() *rapid.Generator[Case] {
 		return gen.S(gen.StringOf(keyTokens, min, 2).Draw(t, "key"))
 	})
 	opts := gen.ScriptOpts{
-		Item:        itemGen(),
+		AllowProps: true, AllowRowErr: true, Item: itemGen(),
 		HdrItem:     key,
 		MinOps:      0,
 		MaxOps:      max,
 		MaxCells:    3,
 		HdrCells:    [2]int{2, 6},
+		HeavyTail:   12, // now and then a header and rows that cross the ten-column capacity in one step
 		ForceHdr:    true,
+		MultiHdr:    true, // a header row may be replaced (same width or wider: a narrower one is out of the domain)
 		AllowMutate: true,
 		Creators:    []string{"core", "json", "json", "csv"},
 	}
@@ -86,6 +88,9 @@ func caseGen() *rapid.Generator[Case] {
 			c.Script = withHdr.Draw(t, "script")
 		}
 		// mostly unset/true/false, rarely a non-boolean
+		if rapid.IntRange(0, 2).Draw(t, "pre?") == 0 {
+			c.Pre = 1 + rapid.IntRange(0, len(c.Script.Ops)).Draw(t, "pre")
+		}
 		c.Skip = rapid.SliceOfN(rapid.SampledFrom([]int{0, 0, 0, 1, 1, 2, 2, 1, 2, 0, 1, 0, 1, 2, 0, 1, 1, 2, 0, 1, 2, 0, 1, 1, 0, 2, 1, 0, 1, 2, 0, 1, 0, 1, 2, 1, 0, 1, 2, 3}), 0, 7).Draw(t, "skip")
 		if rapid.IntRange(0, 2).Draw(t, "props?") == 0 {
 			pg := rapid.Custom(func(t *rapid.T) PropOp {
